@@ -14,6 +14,11 @@ CHECKS = {
    text="Exhaustive TLC check of the mesh formation protocol as coded (acceptConn as two steps) for 3-5 parties, bound to the code in both directions: every generated interleaving is forced on the real code through gates at the scheduling points and the real Peers/Conns are inspected when Connect returns and by a token exchange on every (p,q,k); recorded random schedules must be behaviours of the spec with Complete/Paired/PeerListComplete/NoError evaluated at every step.",
    note="Trusts TLC, the gate placement (11 add-only calls in p2p/network.go under tag verif), loopback TCP and FIFO accept queues.",
    ref="5 C19"),
+ "C01": dict(
+   technique="TLA+ spec Garble.tla (garbleInto/Eval over symbolic free-XOR labels, permute bits nondeterministic) model-checked by TLC over every circuit <= 2 gates x inputs x permute bits; TLC-enumerated (circuit,input) cases replayed on real Garble/Eval/Compute; real runs' permute bits and decoded bits validated as behaviours of the spec (GarbleTrace.tla)",
+   text="TLC enumerates every circuit of up to 2 gates over 2 inputs (all wirings, fan-out, a=b) with every input and every permute-bit assignment of every label atom (3.8M states) plus simulated 3x3 circuits, checking ActIsLabel/Decodes/FreeXor/TweakSync/RowsSent; each enumerated (circuit,input) is run on the real code with 16/24/32-byte keys and fresh randomness and every wire is compared with the predicted bit; recorded real runs are validated against the symbolic spec with the permute bits bound to the observed ones.",
+   note="Trusts TLC and the symbolic abstraction of AES as independent pads; internal permute bits are observed, not forced (coverage of (op,pa,pb,va,vb) tuples is reported).",
+   ref="5 C01"),
 }
 
 NOT_APPLICABLE = {}
